@@ -95,6 +95,10 @@ class Live(object):
         ss = settings(minv=minver, maxv=ver, use_heartbeat_extension=cfg['s_hb'],
                       heartbeat_response_callback=(lambda m: self.hb[False].append(bytes(m.payload))) if cfg['s_cb'] and cfg['s_hb'] else None,
                       cipherNames=[cfg['cipher']])
+        if cfg.get('c_rsl'):
+            cs.record_size_limit = cfg['c_rsl']      # RFC 8449: limits what the SERVER may send
+        if cfg.get('s_rsl'):
+            ss.record_size_limit = cfg['s_rsl']
         if cfg['nst'] >= 0:
             ss.ticketKeys = [bytearray(range(32))]
             ss.ticket_count = cfg['nst']
@@ -216,6 +220,9 @@ class Live(object):
                     cert.certificate_request_context = bytearray(live.first_ctx)
                 elif d == 5:
                     cert.certificate_request_context = bytearray(b'')
+                elif d == 7:
+                    from tlslite.messages import Message, KeyUpdate
+                    msgs = [cert, cv, Message(22, bytearray(fin.write()) + bytearray(KeyUpdate().create(0).write()))]
             return orig_send(msgs)
         c._handle_pha = handle_pha
         c._sendMsgs = send_msgs
@@ -250,19 +257,33 @@ class Live(object):
         out = []
         hs = bytearray()
 
-        def flush_hs():
+        def parse_hs(final):
+            """complete handshake messages in the buffer; a KeyUpdate / Finished that is followed, in the
+            SAME record, by further handshake bytes is a record-alignment violation: the whole record
+            is one abstract (25, [v]) / (26, [ok])"""
             while len(hs) >= 4:
                 n = (hs[1] << 16) | (hs[2] << 8) | hs[3]
+                if len(hs) < 4 + n:
+                    break
                 body = bytes(hs[4:4 + n])
                 t = hs[0]
                 del hs[:4 + n]
-                out.append(self.abstract_hs(t, body))
-            if hs:
+                m = self.abstract_hs(t, body)
+                if hs and self.v13 and m[0] in (24, 20):
+                    out.append((25 if m[0] == 24 else 26, m[1]))
+                    del hs[:]
+                else:
+                    out.append(m)
+            if final and hs:
                 out.append((98, list(hs)))
                 del hs[:]
+
+        def flush_hs():
+            parse_hs(True)
         for (_, ct, data) in entries:
             if ct == 22:
                 hs.extend(data)
+                parse_hs(False)          # (record by record: alignment is a per-record matter)
                 continue
             flush_hs()
             if ct == 23:
@@ -335,6 +356,16 @@ class Live(object):
             return code_of(oc), b'', describe(oc)
         return 9000, b'', 'generator ended without a value'
 
+    def split_keyupdate(self, conn, v, k):
+        """a (legal) peer that spreads one KeyUpdate over two records, then changes its write keys"""
+        from tlslite.messages import Message, KeyUpdate
+        raw = bytearray(KeyUpdate().create(v).write())
+        for part in (raw[:k], raw[k:]):
+            for r in conn._sendMsg(Message(22, part), update_hashes=False):
+                yield r
+        conn.session.cl_app_secret, conn.session.sr_app_secret = conn._recordLayer.calcTLS1_3KeyUpdate_reciever(
+            conn.session.cipherSuite, conn.session.cl_app_secret, conn.session.sr_app_secret)
+
     def gen_op(self, g):
         oc = run_gen(g)
         return code_of(oc), b'', describe(oc)
@@ -365,6 +396,16 @@ class Live(object):
             return M.CertificateVerify((3, 4)).create(bytearray(b'\x01' * 64), (8, 4))
         if kind == 'MFin':
             return M.Finished((3, 4), 32).create(bytearray(b'\x02' * 32))
+        if kind in ('MKUx', 'MFinx'):
+            # a KeyUpdate / Finished followed, in the same record, by a whole message or by the first
+            # fragment of one
+            first = bytes(M.KeyUpdate().create(m[1]).write()) if kind == 'MKUx' else \
+                bytes(M.Finished((3, 4), 32).create(bytearray(b'\x02' * 32)).write())
+            nst = bytes(M.NewSessionTicket().create(3600, 1, bytearray(b'n'), bytearray(b'ticket' * 4), []).write())
+            tail = {'nst': nst, 'ku': bytes(M.KeyUpdate().create(0).write()), 'frag': nst[:3], 'frag1': nst[:1],
+                    'certreq': bytes(M.CertificateRequest((3, 4)).create(context=bytearray(b'c' * 32), sig_algs=[(8, 4)],
+                                                                         extensions=[]).write())}[m[2]]
+            return M.Message(22, bytearray(first + tail))
         if kind == 'MUnexp':
             if self.v13:
                 return M.Message(22, bytearray([14, 0, 0, 0]))           # ServerHelloDone
@@ -388,6 +429,8 @@ class Live(object):
             code, data, desc = self.read(conn, op[1])
         elif k == 'OWrite':
             code, data, desc = self.gen_op(conn.writeAsync(bytes(op[1])))
+        elif k == 'OKeyUpdate' and len(op) > 2 and op[2]:
+            code, data, desc = self.gen_op(self.split_keyupdate(conn, 1 if op[1] else 0, op[2]))
         elif k == 'OKeyUpdate':
             code, data, desc = self.gen_op(conn.send_keyupdate_request(1 if op[1] else 0))
         elif k == 'ORequestAuth':
@@ -421,16 +464,17 @@ class Live(object):
         # the honesty flags of a PHA reply sent in this step
         if self.dev and any(ct == 22 and d[:1] in (b'\x0b', b'\x19') for (_, ct, d) in mine):
             # the request being answered is the most recent CertificateRequest the client read
-            same = (self.dev in (1, 2, 6)) or (self.dev == 4 and self.ctxmap.get(self.first_ctx) == self.last_req)
+            same = (self.dev in (1, 2, 6, 7)) or (self.dev == 4 and self.ctxmap.get(self.first_ctx) == self.last_req)
             self.cv_ok = 1 if (same and self.dev != 1) else 0
             self.fin_ok = 1 if (same and self.dev != 2) else 0
         if k == 'OInject' and op[1][0] == 'MCV':
             self.cv_ok = int(bool(op[1][1]))
-        if k == 'OInject' and op[1][0] == 'MFin':
+        if k == 'OInject' and op[1][0] in ('MFin', 'MFinx'):
             self.fin_ok = int(bool(op[1][1]))
         recs = self.abstract_records(mine)
         return dict(code=code, data=data, desc=desc, recs=recs, gens=self.gens(), foreign=len(other),
-                    keys_ok=self.record_keys_ok())
+                    keys_ok=self.record_keys_ok(), rs_eff=conn.recordSize,
+                    raw_hb=[bytes(d) for (_, ct, d) in mine if ct == 24])
 
     def final(self):
         chain = self.s.session.clientCertChain
